@@ -32,6 +32,9 @@ func buildEvy() (bin string, cleanup func(), err error) {
 	bin = filepath.Join(dir, "evy")
 	cmd := exec.Command("go", "build", "-o", bin, ".")
 	cmd.Dir = "/repo"
+	if d := os.Getenv("VERIF_REPO"); d != "" { // sanity runs against a scratch copy of the repo
+		cmd.Dir = d
+	}
 	cmd.Env = append(os.Environ(), "GOFLAGS=-mod=mod", "GOPROXY=off", "GOSUMDB=off", "GOTOOLCHAIN=local", "CGO_ENABLED=0")
 	if out, err := cmd.CombinedOutput(); err != nil {
 		os.RemoveAll(dir)
@@ -237,8 +240,12 @@ func c07Check(c *c07Ctx, in fmtInput) {
 		r.Violate(Violation{Kind: "correspondence", Key: "ends-one-nl-differs", Detail: "model says not exactly one final newline, Go oracle says fine", Input: src, Impl: f1})
 	}
 	if p := depthProblem(f1, prog2); p != "" {
+		r.Violate(Violation{Kind: "property", Key: "depth:" + p,
+			Detail: "Format() output is not indented four spaces per block level: " + p, Input: src, Impl: f1})
+	}
+	if p := continuationProblem(f1); p != "" {
 		key := "depth:" + p
-		if p == "continuation-line-less-indented-than-its-statement" {
+		if strings.Contains(f1, "\n]") || strings.Contains(f1, "\n}") {
 			key = "multiline-close-bracket-unindented-after-comment"
 		}
 		r.Violate(Violation{Kind: "property", Key: key,
